@@ -252,14 +252,14 @@ def make_value(spec: dict, sink=None, site=None):
 _PLACEHOLDER = __import__("re").compile(r"\$\{([A-Za-z_][A-Za-z0-9_]*)\}")
 
 
-def tcall_record(msgid, mapping) -> list:
+def tcall_record(msgid, mapping, domain=None, context=None) -> list:
     """What a translation function is handed, made comparable: the message
     id (whitespace collapsed) and the mapping entries of the names that
     occur in it as ${name}."""
     mid = _tnorm(msgid)
     names = sorted(set(_PLACEHOLDER.findall(mid)))
     mp = [[k, _tnorm((mapping or {}).get(k, "<absent>"))] for k in names]
-    return [mid, mp]
+    return [mid, mp, domain, context]
 
 
 _TTAG = __import__("re").compile(r"(<[^>]*>)")
@@ -310,7 +310,7 @@ class Probe:
         n = self.count.get("T", 0)
         self.count["T"] = n + 1
         self.history.append("T")
-        self.tcalls.append(tcall_record(msgid, mapping))
+        self.tcalls.append(tcall_record(msgid, mapping, domain, context))
         do = self.plan.get(("T", n)) or self.plan.get(("T", "*"))
         if do is not None and do[0] == "raise":
             exc = ZOO[do[1]]()
